@@ -53,6 +53,12 @@ class Flow:
         s = list(self.transfer_expr(test, state))
         return s, s
 
+    def _branch(self, test: ast.expr, state: Any) -> tuple:
+        # constant conditions (`while True`) have only one feasible side
+        if isinstance(test, ast.Constant):
+            return ([state], []) if test.value else ([], [state])
+        return self.branch(test, state)
+
     def for_iter(self, node: ast.For, state: Any) -> Iterable:
         return self.transfer_expr(node.iter, state)
 
@@ -140,7 +146,7 @@ class Flow:
         if isinstance(st, ast.If):
             t, f = set(), set()
             for s in states:
-                a, b = self.branch(st.test, s)
+                a, b = self._branch(st.test, s)
                 t.update(a)
                 f.update(b)
             ob = self.run_block(st.body, t)
@@ -215,7 +221,7 @@ class Flow:
             else:
                 t, f = set(), set()
                 for s in head:
-                    a, b = self.branch(st.test, s)
+                    a, b = self._branch(st.test, s)
                     t.update(a)
                     f.update(b)
             body_out = self.run_block(st.body, t)
